@@ -48,8 +48,21 @@ def d1(ctx, prog):
               f'mask `{norm(mdef.value)}` keeps exactly the non-empty classes', f.where(mdef))
     # every array handed to the metric is masked by that same mask
     masked = set()
+    pm = astutil.parents(f.node)
+
+    def all_classes_populated(d):
+        """the definition sits on a path where `<mask>.all()` holds: every class is non-empty, the mask selects everything,
+        so the unmasked row of the accumulator is the masked one"""
+        for t, pos in astutil.guards(d, pm, f.node):
+            tt = norm(t).replace(' ', '')
+            if pos and tt in (f'{mname}.all()', f'_np.all({mname})', f'np.all({mname})', f'numpy.all({mname})'):
+                return True
+            if not pos and tt in (f'not{mname}.all()', f'(~{mname}).any()', f'_np.any(~{mname})'):
+                return True
+        return False
     for name, ds in defs.items():
-        if all(any(isinstance(s, ast.Subscript) and mname in astutil.names_read(s.slice) for s in ast.walk(d.value)) for d in ds):
+        if all(any(isinstance(s, ast.Subscript) and mname in astutil.names_read(s.slice) for s in ast.walk(d.value)) or
+               (all_classes_populated(d) and astutil.self_attrs_read(d.value) & {'counters', 'sum', 'sum_square'}) for d in ds):
             masked.add(name)
     for a in call.args:
         akey = f'{f.key}::metric argument {norm(a)[:40]}'
@@ -86,6 +99,144 @@ def d2(ctx, prog):
     return n
 
 
+def d2_purity(ctx, prog):
+    """a metric may be handed views of the accumulators (fast paths): any in-place effect in the compute closure of an
+    ANOVA / NICV / SNR class must land on values bound in the same call - the ownership analysis of C01-D5, instantiated for
+    the partitioned family under this property (a metric that overwrites its argument changes the next compute's result)"""
+    from . import c01
+    us, _ = c01.units(prog)
+    n = 0
+    for u in us:
+        m = prog.resolve_method(u.cls, '_compute_metric')
+        if m is None or m.mod.name != PART:
+            continue
+        u.guard = c01.find_guard(prog, u)
+        u.acc = universe.accumulators(prog, u.cls, u.init)
+        c01.d5(ctx, prog, u.cls, u.compute, u.acc, u.count, u.guard or '', rule='C04-D2')
+        n += 1
+    return n
+
+
+# ------------------------------------------------------------------------------------------------ D5: class-set size homogeneity
+TOPX = 'T'
+
+
+class Extent:
+    """exponent of |P| (size of the declared class set, empty classes included) carried by every value of a metric.  The
+    only source is `<mask>.shape[0]` / `len(<mask>)` / `<mask>.size`; products add, quotients subtract, constant powers scale,
+    sums / differences need equal exponents, reductions keep the exponent.  A result with a non-zero exponent changes when an
+    empty class is added to the class set."""
+
+    def __init__(self, f, mask):
+        self.f, self.mask = f, mask
+        self.env = {p: 0 for p in f.params}
+        self.sources = []
+
+    def run(self):
+        for st in f_body(self.f):
+            if isinstance(st, ast.Assign) and len(st.targets) == 1 and isinstance(st.targets[0], ast.Name):
+                self.env[st.targets[0].id] = self.ev(st.value)
+            elif isinstance(st, ast.AugAssign) and isinstance(st.target, ast.Name):
+                cur, v = self.env.get(st.target.id, TOPX), self.ev(st.value)
+                self.env[st.target.id] = self.op(st.op, cur, v, st)
+            elif isinstance(st, ast.Return):
+                return self.ev(st.value)
+            else:
+                return TOPX
+        return TOPX
+
+    def op(self, op, a, b, node):
+        if a == TOPX or b == TOPX:
+            return TOPX
+        if isinstance(op, ast.Mult):
+            return a + b
+        if isinstance(op, (ast.Div, ast.FloorDiv)):
+            return a - b
+        if isinstance(op, (ast.Add, ast.Sub)):
+            return a if a == b else TOPX
+        if isinstance(op, ast.Pow):
+            c = const_value(node.right) if isinstance(node, ast.BinOp) else const_value(node.value)
+            return a * c if isinstance(c, int) and b == 0 else (0 if a == 0 and b == 0 else TOPX)
+        return TOPX
+
+    def ev(self, e):
+        if isinstance(e, ast.Constant):
+            return 0
+        if isinstance(e, ast.Name):
+            return self.env.get(e.id, TOPX)
+        if isinstance(e, ast.UnaryOp):
+            return self.ev(e.operand)
+        if isinstance(e, ast.BinOp):
+            return self.op(e.op, self.ev(e.left), self.ev(e.right), e)
+        if isinstance(e, ast.Attribute):
+            if e.attr == 'T':
+                return self.ev(e.value)
+            if e.attr == 'size' and norm(e.value) == self.mask:
+                self.sources.append(e)
+                return 1
+            if e.attr in ('shape', 'dtype', 'ndim'):
+                return TOPX
+            return TOPX
+        if isinstance(e, ast.Subscript):
+            if isinstance(e.value, ast.Attribute) and e.value.attr == 'shape':
+                if norm(e.value.value) == self.mask and const_value(e.slice) in (0, -1):
+                    self.sources.append(e)
+                    return 1
+                return TOPX       # some other extent (P' or S): not tracked
+            return self.ev(e.value)
+        if isinstance(e, ast.Call):
+            name = norm(e.func).split('.')[-1]
+            if name == 'len' and e.args and norm(e.args[0]) == self.mask:
+                self.sources.append(e)
+                return 1
+            if name in ('sum', 'nansum', 'mean', 'nanmean', 'max', 'min', 'abs', 'absolute', 'sqrt', 'square', 'count_nonzero', 'asarray', 'array', 'copy', 'astype', 'float', 'int'):
+                arg = e.args[0] if e.args and not (isinstance(e.func, ast.Attribute) and not norm(e.func.value).endswith('np')) else (e.func.value if isinstance(e.func, ast.Attribute) else None)
+                v = self.ev(arg) if arg is not None else TOPX
+                if name == 'sqrt' and v != TOPX:
+                    return v / 2 if v % 2 == 0 else TOPX
+                if name == 'square' and v != TOPX:
+                    return 2 * v
+                if name == 'count_nonzero':
+                    return 0 if v != TOPX else TOPX
+                return v
+            return TOPX
+        return TOPX
+
+
+def f_body(f):
+    b = list(f.node.body)
+    if b and isinstance(b[0], ast.Expr) and isinstance(b[0].value, ast.Constant):
+        b = b[1:]
+    return b
+
+
+def d5(ctx, prog):
+    base = prog.need_class(PART, 'PartitionedDistinguisherMixin')
+    n = 0
+    for ci in prog.subclasses_of(base, strict=True):
+        f = ci.methods.get('_compute_metric')
+        if f is None:
+            continue
+        ps = [p for p in f.params if p != 'self']
+        if not ps:
+            continue
+        x = Extent(f, ps[0])
+        r = x.run()
+        key = f'{f.key}::class-set size'
+        n += 1
+        if r == TOPX:
+            if x.sources:
+                ctx.undecided('C04-D5', key, f'the metric uses the size of the declared class set (`{norm(x.sources[0])}`) and the way it enters the result could not be followed', f.where(x.sources[0]))
+            else:
+                ctx.ok('C04-D5', key, 'the size of the declared class set (empty classes included) is never used', f.where())
+        elif r == 0:
+            ctx.ok('C04-D5', key, f'the size of the declared class set enters the result with exponent 0 ({len(x.sources)} uses cancel): adding an empty class changes nothing', f.where())
+        else:
+            ctx.fail('C04-D5', key, f'the result is proportional to (size of the declared class set)^{r} (`{norm(x.sources[0])}` does not cancel): an empty class changes the result',
+                     f.where(x.sources[0]), exponent=r)
+    return n
+
+
 def run(ctx, prog):
     ctx.rule('C04-D1', 'one "count is positive" mask selects the class axis of counters, sum and sum_square; only masked values reach the metric')
     ctx.rule('C04-D2', 'metrics read only their parameters, store nothing, use no constant class position')
@@ -95,6 +246,9 @@ def run(ctx, prog):
     d1(ctx, prog)
     n2 = d2(ctx, prog)
     n3 = infnan_rule(ctx, prog, 'C04-D3', {PART})
+    ctx.rule('C04-D5', 'extent homogeneity: the size of the declared class set (which counts empty classes) enters each metric with total exponent 0')
+    ctx.floor('partitioned classes whose compute closure is checked for purity', d2_purity(ctx, prog), 6)
+    ctx.floor('metrics checked for class-set size homogeneity', d5(ctx, prog), 3)
     typed = []
     n4 = axes.check_family(ctx, prog, 'C04-D4', [PART], collect=typed)
     # D2 (order symmetry / no second selection): inside a metric the class axis is consumed whole
